@@ -22,7 +22,10 @@ def run(ck, progs):
                      "inserts every message it allocates")
     ck.rule("C10.5", "termination bookkeeping: an LP is counted once when its predicate first holds (negative marker = not yet), the run stops "
                      "when the count of pending LPs reaches 0 or the termination time is passed")
+    ck.rule("C10.6", "every message inserted in the serial heap has its flag word initialised (the comparator reads the cancellation bit of recycled buffers)")
     for cfg, P in progs.items():
+        from .. import rules_msg
+        rules_msg.check_flags_initialised(ck, P, "C10.6")
         _main_loop(ck, P, cfg)
         _comparators(ck, P, cfg)
         _init_fini(ck, P, cfg)
